@@ -74,7 +74,7 @@ func (x *lpEx) fail(n ast.Node, msg string) {
 	x.errs = append(x.errs, fmt.Sprintf("%s: %s", x.fset.Position(n.Pos()), msg))
 }
 
-func lockOpOf(method string) string {
+func lpLockOpOf(method string) string {
 	switch method {
 	case "RLock":
 		return "rlock"
@@ -133,7 +133,7 @@ func (x *lpEx) isRecvExpr(e ast.Expr) bool {
 	return ok && id.Obj != nil
 }
 
-func containsReturn(n ast.Node) bool {
+func lpContainsReturn(n ast.Node) bool {
 	found := false
 	ast.Inspect(n, func(m ast.Node) bool {
 		switch m.(type) {
@@ -182,12 +182,12 @@ func (x *lpEx) expr(e ast.Node, in []lpState) []lpState {
 		if se, ok := v.Fun.(*ast.SelectorExpr); ok {
 			// mutex operation
 			if inner, ok := se.X.(*ast.SelectorExpr); ok && inner.Sel.Name == lpMutex {
-				op := lockOpOf(se.Sel.Name)
+				op := lpLockOpOf(se.Sel.Name)
 				if op == "" {
 					x.fail(v, "unsupported operation on the selector mutex: "+se.Sel.Name)
 					return in
 				}
-				return appendOp(in, op)
+				return lpAppendOp(in, op)
 			}
 			// receiver first, then the arguments, then the call itself
 			in = x.expr(se.X, in)
@@ -195,7 +195,7 @@ func (x *lpEx) expr(e ast.Node, in []lpState) []lpState {
 				in = x.expr(a, in)
 			}
 			if se.Sel.Name == "Select" {
-				return appendOp(in, "select")
+				return lpAppendOp(in, "select")
 			}
 			if fd, ok := x.funcs[se.Sel.Name]; ok && x.isRecvExpr(se.X) && x.hasOps(fd.Body) {
 				return x.inline(fd, in)
@@ -214,7 +214,7 @@ func (x *lpEx) expr(e ast.Node, in []lpState) []lpState {
 		}
 		in = x.expr(v.X, in)
 		if v.Sel.Name == lpField {
-			return appendOp(in, "readSel")
+			return lpAppendOp(in, "readSel")
 		}
 		return in
 	case *ast.FuncLit:
@@ -264,7 +264,7 @@ func (x *lpEx) expr(e ast.Node, in []lpState) []lpState {
 	return in
 }
 
-func appendOp(in []lpState, op string) []lpState {
+func lpAppendOp(in []lpState, op string) []lpState {
 	out := make([]lpState, len(in))
 	for i, s := range in {
 		c := s.clone()
@@ -274,7 +274,7 @@ func appendOp(in []lpState, op string) []lpState {
 	return out
 }
 
-func dedup(in []lpState) []lpState {
+func lpDedup(in []lpState) []lpState {
 	seen := map[string]bool{}
 	var out []lpState
 	for _, s := range in {
@@ -331,7 +331,7 @@ func (x *lpEx) inline(fd *ast.FuncDecl, in []lpState) []lpState {
 			out = append(out, c)
 		}
 	}
-	return dedup(out)
+	return lpDedup(out)
 }
 
 // deferredOps: the operations a deferred call performs when it runs.
@@ -371,7 +371,7 @@ func (x *lpEx) stmts(list []ast.Stmt, in []lpState, nest int) []lpState {
 		if len(cur) == 0 {
 			return cur
 		}
-		cur = dedup(x.stmt(st, cur, nest))
+		cur = lpDedup(x.stmt(st, cur, nest))
 	}
 	return cur
 }
@@ -411,7 +411,7 @@ func (x *lpEx) stmt(st ast.Stmt, in []lpState, nest int) []lpState {
 		for _, l := range v.Lhs {
 			if se, ok := l.(*ast.SelectorExpr); ok && se.Sel.Name == lpField {
 				in = x.expr(se.X, in)
-				in = appendOp(in, "swapSel")
+				in = lpAppendOp(in, "swapSel")
 				continue
 			}
 			in = x.expr(l, in)
@@ -436,7 +436,7 @@ func (x *lpEx) stmt(st ast.Stmt, in []lpState, nest int) []lpState {
 		}
 		in = x.expr(v.Cond, in)
 		ops := x.hasOps(v.Body) || (v.Else != nil && x.hasOps(v.Else))
-		ret := containsReturn(v)
+		ret := lpContainsReturn(v)
 		if !ops && !ret {
 			return in
 		}
@@ -465,7 +465,7 @@ func (x *lpEx) stmt(st ast.Stmt, in []lpState, nest int) []lpState {
 			x.fail(v, "lock or selector operation inside a loop or switch: not supported by the extractor")
 			return in
 		}
-		if containsReturn(v) {
+		if lpContainsReturn(v) {
 			x.terminate(in, "return")
 		}
 		return in
